@@ -15,12 +15,12 @@ CHECKS = {
 
  "C01": ("enum", "model_checking",
          "bounded-exhaustive type-directed program enumeration executed on the real pipeline and 4 back ends; result values walked through exported fields",
-         "Every well-typed program of the object alphabet up to the depth bound (object literals in all field permutations inside lists, maps, branches and polymorphic calls, projected by member / subscript; raw, host-map and host-struct environments whose objects are stored in both field orders; programs compiled against one field order and invoked with the other) is compiled and run on the four back ends; the real inferred type, the dynamic type of the result and the declared type of every component must agree and no component may be nil. A worker that dies while reading a value is attributed to the program (isolated 5x re-run).",
-         "Trusted: the value reader (mc/real/val.go) and the term renderer. Bound: depth 2 with one nested operand (quick) / full depth 2, depth 3 for num/str results (thorough); function-typed values not covered.",
+         "Every well-typed program of the object alphabet up to the depth bound (object literals in all field permutations inside lists, maps, branches and polymorphic calls, projected by member / subscript; raw, host-map and host-struct environments whose objects are stored in both field orders; programs compiled against one field order and invoked with the other; one Callable per back end invoked along histories of <= 4 environments whose objects alternate field order; literals of 41..600 components; host containers whose elements would differ in type) is compiled and run on the four back ends; the real inferred type, the dynamic type of the result and the declared type of every component must agree and no component may be nil. A worker that dies while reading a value is attributed to the program (isolated 5x re-run).",
+         "Trusted: the value reader (mc/real/val.go) and the term renderer. Bound: depth 2 with one nested operand (quick) / full depth 2, depth 3 for num results (thorough); function-typed values not covered.",
          "DESIGN.md §4 C01"),
  "C02": ("enum", "model_checking",
          "bounded-exhaustive enumeration of programs over the partial-operation alphabet, each execution compared with an independent reference evaluator's predicted value / failure kind",
-         "All programs up to the depth bound over boundary indices (negative, fractional, len, 2^53, 1e300, NaN, ±Inf), present / absent map keys, zero / fractional / huge modulo divisors, valid / invalid patterns, get-with-default forms and empty containers, plus linear size sweeps past the VM's 42-slot stack and 8/16-bit operands, are run on the four back ends. A value must be returned exactly when the reference defines one; a failure must be the documented kind (index / key / modulo-by-zero / pattern); anything else (Go runtime error, nil dereference, 'unreachable', unsupported opcode, empty Pop) is an internal fault.",
+         "All programs up to the depth bound over boundary indices (negative, fractional, len, 2^53, 1e300, NaN, ±Inf), present / absent map keys, zero / fractional / huge modulo divisors, valid / invalid patterns, get-with-default forms, empty containers and && / || / ?: guards whose unselected operand is undefined (also through lazy function values called dynamically), plus linear size sweeps past the VM's 42-slot stack and 8/16-bit operands, are run on the four back ends. A value must be returned exactly when the reference defines one; a failure must be the documented kind (index / key / modulo-by-zero / pattern); anything else (Go runtime error, nil dereference, 'unreachable', unsupported opcode, empty Pop) is an internal fault.",
          "Trusted: mc/ref evaluator (README semantics). Index / modulo truncation is only specified inside the int64 range; outside it the oracle demands 'documented failure or value'.",
          "DESIGN.md §4 C02"),
  "C03": ("enum", "model_checking",
@@ -30,7 +30,7 @@ CHECKS = {
          "DESIGN.md §4 C03"),
  "C04": ("enum", "model_checking",
          "bounded-exhaustive argument grids and literal forms executed on the real code, every result compared element by element with an independent reference evaluator",
-         "For every documented overload (polymorphic ones instantiated over five element types and two map shapes) the full grid of argument tuples from the boundary pools (tolerance edges, -0, beyond 2^53 / 2^63, ±Inf, NaN; non-ASCII / combining / 4-byte strings; duplicate-laden lists; maps; objects in both field orders; optionals; equal and adjacent instants) is evaluated as raw environment data, as host map data and as literals on the four back ends; every numeric literal text of <= 5 (thorough 6) characters accepted by the documented grammar, every string escape, absolute date-time forms over a calendar grid, and depth-2 compositions are evaluated as well. Values are compared bit-exactly (NaN ≡ NaN), never with the language's tolerance.",
+         "For every documented overload (polymorphic ones instantiated over five element types and two map shapes) the full grid of argument tuples from the boundary pools (tolerance edges, -0, beyond 2^53 / 2^63, ±Inf, NaN; non-ASCII / combining / 4-byte strings; duplicate-laden lists; maps; objects in both field orders; optionals; equal and adjacent instants) is evaluated as raw environment data (also with every argument read again after the call: {r: f(x0,x1), p0: x0, p1: x1}), as host map data and as literals on the four back ends; every comparison operator under every negation; pairs of literals in one program that are equal, within the tolerance or just outside it; every numeric literal text of <= 5 (thorough 6) characters accepted by the documented grammar, every string escape, absolute date-time forms over a calendar grid, and depth-2 compositions are evaluated as well. Values are compared bit-exactly (NaN ≡ NaN), never with the language's tolerance.",
          "Trusted: mc/ref (README semantics; rendering formats mirrored from the documented implementation), Go's math / regexp / time.Parse as shared library code. Relative time forms excluded.",
          "DESIGN.md §4 C04"),
  "C05": ("enum", "model_checking",
@@ -40,7 +40,7 @@ CHECKS = {
          "DESIGN.md §4 C05"),
  "C06": ("enum", "model_checking",
          "bounded-exhaustive enumeration of effect-recording and poisoned programs; ordered host-call trace compared with the reference evaluator on 4 back ends",
-         "Tracer calls (numbered in source order) and failing terms are placed in every operand position of if, ?:, &&, ||, user-registered lazy and / or / second / twice, strict calls, list / map / object literals and subscripts, nested up to the depth bound, plus hand-built three-level nestings of lazy calls inside thunks; on each of the four back ends the ordered trace of host-function invocations and the outcome class must equal the reference evaluator's (condition once, selected operand only, strict operands once and left to right, key before value).",
+         "Tracer calls (numbered in source order) and failing terms are placed in every operand position of if, ?:, &&, ||, user-registered lazy and / or / second / twice, strict calls, list / map / object literals (map literals with repeated keys), list and map subscripts, dynamic calls of strict and lazy function values (incl. a lazy user conditional), nested up to the depth bound, plus hand-built three-level nestings of lazy calls inside thunks; on each of the four back ends the ordered trace of host-function invocations and the outcome class must equal the reference evaluator's (condition once, selected operand only, strict operands once and left to right, key before value).",
          "Trusted: mc/ref evaluator's evaluation order (README / property statement).",
          "DESIGN.md §4 C06"),
 
@@ -62,7 +62,7 @@ CHECKS = {
          "DESIGN.md §4 C18"),
  "C20": ("enum", "model_checking",
          "bounded-exhaustive enumeration of criteria trees and adversarial operands; the emitted WHERE text is re-read by an independent SQL boolean-expression reader",
-         "All criteria trees of depth <= 2 over binary AND / OR, unary NOT and 11 leaf conditions (thorough: also depth 3 over 3 leaves), and every adversarial string / number operand in every condition that takes it inside four tree contexts: the text produced by ext.CompileToSql is tokenised and parsed with standard SQL precedence; the tree read back must equal the input modulo flattening of AND / OR, bound names must appear as their run-time values and unbound names as back-quoted columns, each string operand must be exactly one quoted literal that decodes to the operand, numbers must be plain numeric literals that read back as the same double, booleans 1 / 0, instants from_unixtime(n).",
+         "All criteria trees of depth <= 2 over binary AND / OR, unary NOT and 12 leaf conditions (thorough: also depth 3 over 3 leaves), and every adversarial string / number operand in every condition that takes it inside four tree contexts: each criteria value (operand slices built with spare capacity) is lowered twice and each result rendered twice, all four texts must be identical; the text produced by ext.CompileToSql is tokenised and parsed with standard SQL precedence; the tree read back must equal the input modulo flattening of AND / OR, bound names must appear as their run-time values and unbound names as back-quoted columns, each string operand must be exactly one quoted literal that decodes to the operand, numbers must be plain numeric literals that read back as the same double, booleans 1 / 0, instants from_unixtime(n).",
          "Trusted: mc/ref/sql.go (tokenizer + precedence reader). Assumes MySQL-style backslash escapes inside double-quoted literals.",
          "DESIGN.md §4 C20"),
 
@@ -89,7 +89,7 @@ CHECKS = {
          "DESIGN.md §4 C07"),
  "C13": ("enum", "model_checking",
          "explicit enumeration of ALL API histories up to the depth bound on one engine with shared environment objects, under all 8 map-iteration seeds, with a differential oracle against a fresh engine",
-         "Every history of <= 4 (thorough 5) operations over a 22-operation menu (compile e0..e4 against one shared *types.Env; invoke compiled expression k with one shared *val.Env, a host struct or a host map; Debug) is executed on one engine under each of the 8 map-iteration seeds; the last operation's result, rendering (String() and string(x)), error class and captured standard output must equal the same operation on a brand-new engine with brand-new environments under seed 1; standard output must be empty unless the expression calls print; host values must deep-equal their snapshot. The expressions print, render multi-entry maps / objects, call union / intersect / diff with several survivors, reach one value through two paths, and fail. A 300-compilation history checks that later compilations are unaffected.",
+         "Every history of <= 4 (thorough 5) operations over a 26-operation menu (compile e0..e4 against one shared *types.Env; invoke compiled expression k with one shared *val.Env, a host struct or a host map; Debug; compile / invoke an expression that calls function values chosen at run time; compile and invoke on a SECOND engine with the same shared environments) is executed on one engine under each of the 8 map-iteration seeds; the last operation's result, rendering (String() and string(x)), error class and captured standard output must equal the same operation on a brand-new engine with brand-new environments under seed 1; standard output must be empty unless the expression calls print; host values must deep-equal their snapshot. The expressions print, render multi-entry maps (also with keys that differ only in case) / objects, apply floor / ceil / round / abs / max to variables that are read again, call union / intersect / diff with several survivors, reach one value through two paths, and fail. A 300-compilation history checks that later compilations are unaffected.",
          "No state merging (a state is its history), so no canonicalisation argument is needed. The runtime overlay owns map-iteration order; stdout is captured through a pipe.",
          "DESIGN.md §4 C13"),
  "C14": ("sched", "model_checking",
@@ -109,7 +109,7 @@ CHECKS = {
          "DESIGN.md §4 C16"),
  "C19": ("enum", "model_checking",
          "bounded-exhaustive enumeration of single-line programs evaluated in debug mode; the record is read through the build-tag hook and compared with the reference evaluator's list of evaluated terms and their columns",
-         "All accepted programs of depth <= 2 (one nested operand) over the debug alphabet (ASCII / non-ASCII identifiers and strings, multi-line renderings, members, subscripts, method calls, operators, conditionals and short-circuit operators with unevaluated branches, failing accesses) in raw and host-map environments, plus 18 three-level programs: Debug must return normal evaluation's value / failure; the record (before rendering) must equal the reference's (value, column) list for exactly the evaluated variable / call / member / subscript terms in completion order, each at its own term's column; rendering must not fail, must keep the source as first line and show every recorded value at its column; yae.Debug's report must equal rendering that record.",
+         "All accepted programs of depth <= 2 (one nested operand) over the debug alphabet (ASCII / non-ASCII identifiers and strings, multi-line renderings, members, subscripts, method calls, list functions over a recorded list variable, operators, conditionals and short-circuit operators with unevaluated branches, failing accesses) in raw and host-map environments, plus 23 three-level programs: Debug must return normal evaluation's value / failure; the record (before rendering) must equal the reference's (value, column) list for exactly the evaluated variable / call / member / subscript terms in completion order, each at its own term's column; rendering must not fail, must keep the source as first line and show every recorded value at its column; yae.Debug's report must equal rendering that record.",
          "Trusted: the column-tracking renderer (gen.Term.OwnCols) and the reference evaluator's completion order. Functions that evaluate one operand twice are excluded.",
          "DESIGN.md §4 C19"),
  "C17": ("enum", "model_checking",
